@@ -16,12 +16,27 @@ RULE = ("histories of 1..6 editing operations (list insert/append/pop, list-leve
         "random histories. Object-level operations take their object from the committed tree: while an uncommitted change is "
         "pending (auto_commit off) they are skipped on both sides, because line numbers of held objects are documented to be "
         "stale until commit. non-trivial = a history with at least one successful mutation; distinct by request.")
-LEVEL_TEXT = ("Theorems (Lean 4, all states and payloads): each operation of the edit state machine changes the text list exactly as "
-              "the corresponding list operation (insert at k / delete the set {i} ∪ descendants / replace position i / one copy adjacent "
-              "to every match), and leaves every other line's text and the relative order unchanged; errors leave the state unchanged. "
-              "The model is tied to the code by differential runs of whole histories (texts after every step, tree after every commit).")
+LEVEL_TEXT = ("Theorems (Lean 4, Ccp.Props.C06, for all states and payloads of the edit state machine; text effect of one step when the "
+              "following commit does not filter, i.e. auto_commit off, or on without ignore_blank_lines): insert(k)/append/pop(k) are exactly "
+              "Python's list operations with the index normalisation stated (pop out of range = IndexError, state unchanged); list-level "
+              "insert_before/after give the old list with one copy of the payload next to every line whose regex-oracle row entry is true "
+              "(explicit flatMap form; length = old + matches; old list is a sublist; everything that is not a copy of the payload untouched; "
+              "no match = no change); object-level insert_before/after find their object by identity (posOf: the position p of the list element "
+              "carrying that committed line number — also on states with uncommitted changes; every step keeps these identities pairwise "
+              "distinct, so p is unique; p = the line number itself on a committed state) and add exactly one line at p / p+1 "
+              "(take ++ [txt] ++ drop); delete (committed states only) removes "
+              "exactly the positions {i} ∪ all_children(i) (under C03's Forest: i and the lines having i on their ancestor chain; length shrinks "
+              "by 1 + |all_children|); replace_text / re_sub change position p only (List.set), an unchanged re_sub is a no-op; a successful "
+              "append_to_family inserts exactly one line at the computed index, for a child-level append to a target with children that index "
+              "is family_endpoint + 1 (directly after the last descendant); every refused operation leaves the whole state unchanged; options "
+              "never change and with auto_commit off only commit replaces the tree. With auto_commit on and ignore_blank_lines the texts are "
+              "one bootstrap of the auto_commit-off result: a sublist of it keeping every non-blank line. The model is tied to the code by "
+              "differential runs of whole histories (texts after every step, tree after every commit).")
 LEVEL_NOTE = ("Trusted: Lean kernel, standard axioms, harness. Regexes are oracle data (rows / substituted texts computed with re by the "
-              "harness). append_to_family index arithmetic is modelled as written, including the known same-indent behaviour (F10b).")
+              "harness); str.replace is modelled for a non-empty 'before'. Partial: the same-indent append_to_family placement is proved as the "
+              "code does it (self + |children|, known finding F10b), not as the property wants it; for a childless target the index is "
+              "characterised through the code's own helpers (last sibling / last_family_linenum / last_parent_linenums[0]). Not proved: that "
+              "append_to_family leaves the parent of every existing line unchanged after the commit (it does not in the F10b case).")
 ASSUMPTIONS = ["object handles are used only on a committed state", "auto_indent_width is the syntax default (1, or 2 for nxos)"]
 TRUSTED = ["regex oracle rows", "str.replace modelled for non-empty 'before'"]
 EXHAUSTIVE = {"quick": False, "thorough": False}
